@@ -210,7 +210,10 @@ def ops (tb : Tables) : DMOps St where
     match parseNat digits with
     | none => -1
     | some n => if unit == [109,115] then n else if unit == [115] then n * 1000 else -1
-  invoke st _ _ _ := { dm := st }
+  -- `Fsm::invoke` with literal `type`, literal inline `<content>` holding a well-formed SCXML
+  -- document, no `namelist` / `<param>` / `idlocation` (the only form the c14 templates use): no
+  -- data-model call is made and the child session starts under the invoke's `id`
+  invoke st _ _ inv := { dm := st, started := if inv.id.isEmpty then none else some inv.id }
 
 /-- donedata of a final state: `evaluate_params` then `evaluate_content` of the trait -/
 def doneDataOf (tb : Tables) (st : St) (cfg : List Nat) (sid : Nat) : DMR St Str :=
